@@ -207,8 +207,14 @@ REG["C11"] = Spec(
     assumptions=LIFE_ASSUME + ["the clock advances only while sleeping (zero drift between clock reads)"],
     explanation="virtual clock: time is a symbolic variable; the model nanosleep asserts each requested sleep is <= 100 ms, never passes the deadline, is >= 1 ms unless it ends exactly at the deadline, and doubles; at return None implies now >= deadline; number of status checks <= sleeps + 1",
 )
+def life_op_drop():
+    b = dict(LIFE_BOUNDS)
+    b["operation"] = "one operation (poll, wait, wait_timeout(0), send_signal, terminate, kill, pid/exit_status), then drop"
+    return H("popen", "h_life_op_drop", unwind=3, unwindset=[(r"os_wait_timeout", 4)], timeout=1800, bounds=b, covers=["COVER/kill-then-drop"])
+
+
 REG["C12"] = Spec(
-    quick=[life_drop(), spawn_parent_h()],
+    quick=[life_drop(), life_op_drop(), spawn_parent_h()],
     encodes=["Drop for Popen", "Popen::detach", "PopenOs::os_wait", "Popen::create (parent role)"],
     bounds="drop of a bare Popen from every state satisfying invariant I (detached or not); drop right after a successful create for every stream configuration",
     outside="the stream adapters and join/capture terminators (adapter harnesses: see level_note / DESIGN.md)",
@@ -227,7 +233,7 @@ REG["C06"] = Spec(
 )
 
 
-POSIX_UW = [(r"vh_posix::(lookup_all_masks|h_alloc_path)", 18), (r"vh_posix::", 14), (r"strlen", 8), (r"memchr", 8), (r"memcmp", 8), (r"posix::split_path", 8),
+POSIX_UW = [(r"vh_posix::(lookup_all_masks|h_alloc_path)", 18), (r"\.work/gen/posix\.rs", 8), (r"vh_posix::", 14), (r"strlen", 8), (r"memchr", 8), (r"memcmp", 8), (r"posix::split_path", 8),
             (r"position", 8), (r"PrepExec", 6), (r"mk::proc_::exec_common", 14)]
 LK_B = {"PATH": "every string of exactly n bytes over {':', 'd'} (shape case-split inside the harness, all 2^n shapes), n = 1..=4", "command": "\"c\" or \"cc\"",
         "candidate_fate": "each of up to 3 candidates: starts / ENOENT / EACCES / ENOTDIR (symbolic)"}
@@ -254,6 +260,7 @@ REG["C15"] = Spec(
 REG["C17"] = Spec(
     quick=[H("popen", "h_alloc_witness", unwind=3, timeout=300),
            H("popen", "h_alloc_child", unwind=3, unwindset=SPAWN_UW, timeout=1800, bounds=dict(SPAWN_BOUNDS, child_steps="no failure, or the k-th of chdir/dup2/setuid/setgid/setpgid/exec fails (k symbolic)", cwd="absent or \"/d\"")),
+           H("popen", "h_alloc_nulcwd", unwind=3, unwindset=SPAWN_UW + [(r"memchr", 8)], timeout=900, covers=["COVER/child-exit"], bounds={"cwd": "\"a\\0b\" (refused by std without errno)"}),
            H("posix", "h_alloc_path", unwind=3, unwindset=POSIX_UW, timeout=1500, covers=["COVER/two-candidates-assembled"],
              bounds={"PATH": "all 16 shapes of 4 bytes over {':','d'} (longest entry first/last, only empty entries)", "command": "\"cc\"", "fates": "symbolic"})],
     encodes=["PopenOs::os_start (child branch)", "PopenOsImpl::do_exec", "posix::PrepExec::{exec,assemble_exe,libc_exec}", "posix::reset_sigpipe", "error report path (write_all to the status pipe, _exit)", "std::env::set_current_dir"],
@@ -313,11 +320,20 @@ ST_IOE = comm_h("h_comm_step_ioe", "stdin+stdout+stderr, arbitrary mid-exchange 
 ST_OE = comm_h("h_comm_step_oe", "stdout+stderr, arbitrary mid-exchange state", 0, 3)
 LIM_OE = comm_h("h_comm_limit_oe", "stdout+stderr, two successive reads with symbolic limits n1, n2 >= 1, arbitrary start state", 0, 4, covers=["COVER/second-limited-read"])
 LIM_IO = comm_h("h_comm_limit_io", "stdin+stdout, two successive limited reads", 2, 4)
-UTF8 = H("comm", "h_utf8_lossy", unwind=6, unwindset=[(r"memcmp", 20)], timeout=1200, bounds={"bytes": "every byte string of length 0..=4"})
+def utf8_h(n):
+    return H("comm", "h_utf8_lossy_%d" % n, unwind=n + 3, unwindset=[(r"memcmp", 20), (r"vh_comm::utf8_case", 14)], timeout=2400, mem_gb=30, bounds={"bytes": "every byte string of length %d (all 256^%d)" % (n, n)})
+
+
+UTF8 = utf8_h(2)
+UTF8_3 = utf8_h(3)
+UTF8_4 = utf8_h(4)
+TR_IO0 = comm_h("h_comm_trace_io0", "stdin+stdout with EMPTY input, fresh exchange", 0, 4)
+BIGW = H("comm", "h_comm_bigwrite", unwind=3, unwindset=COMM_UW, timeout=2400, mem_gb=20,
+         bounds={"streams": "stdin+stdout", "input_len": "9000 concrete bytes (> 2 x PIPE_BUF)", "transfer": "up to 8192 bytes per call (counts only; content check off)", "parent_syscalls": 3})
 
 REG["C01"] = Spec(
-    quick=[TR_IOE, TR_O, TR_I, ST_IOE],
-    thorough=[TR_IOE, TR_IO, TR_OE, TR_O, TR_I, ST_IOE, ST_OE],
+    quick=[TR_IOE, TR_O, TR_I, TR_IO0, BIGW, ST_IOE],
+    thorough=[TR_IOE, TR_IO, TR_OE, TR_O, TR_I, TR_IO0, BIGW, ST_IOE, ST_OE],
     encodes=COMM_ENC,
     bounds={"quick": "traces of 4-5 parent system calls from the start of an exchange for {in,out,err}, {out}, {in}; one inductive step of 3 system calls from an arbitrary mid-exchange state for {in,out,err}", "thorough": "plus {in,out}, {out,err} traces and the {out,err} step"},
     outside="Popen::communicate*/Exec::capture/Pipeline::capture wrappers (they hand their three files to the same loop); transfers larger than 3 bytes per call; the Windows helper-thread variant (threads + channel: no installed engine executes Rust threads symbolically)",
@@ -325,11 +341,11 @@ REG["C01"] = Spec(
     explanation="safety form of termination, asserted inside the model kernel: a write is never issued that can block (chunk <= PIPE_BUF and room available after POLLOUT), a read never blocks while other pipes are held, poll is never called with nothing to wait for, and between two consecutive polls a byte moved or a stream was retired (no spinning at end-of-file)",
 )
 REG["C02"] = Spec(
-    quick=[TR_IOE, TR_O, ST_IOE, UTF8],
-    thorough=[TR_IOE, TR_IO, TR_OE, TR_O, TR_I, ST_IOE, ST_OE, UTF8],
+    quick=[TR_IOE, TR_O, TR_IO0, ST_IOE],
+    thorough=[TR_IOE, TR_IO, TR_OE, TR_O, TR_I, TR_IO0, ST_IOE, ST_OE],
     encodes=COMM_ENC + ["communicate::from_utf8_lossy"],
-    bounds={"quick": "as C01 quick; input of 2 symbolic bytes; output offsets symbolic up to 2^40 in the step harness; UTF-8 helper on all byte strings up to 4 bytes", "thorough": "all stream subsets"},
-    outside="single transfers longer than 3 bytes; CaptureData::stdout_str (std's from_utf8_lossy directly); Windows read_and_transmit / writer closure (threads)",
+    bounds={"quick": "as C01 quick; input of 2 symbolic bytes (and the empty input); output offsets symbolic up to 2^40 in the step harness", "thorough": "all stream subsets"},
+    outside="the text-returning variants (from_utf8_lossy helper / read_string / CaptureData::stdout_str): std's UTF-8 validation and lossy decoding exhaust the SAT back end even for 2 symbolic bytes (30 GB, measured; harnesses h_utf8_lossy_* kept unregistered); single transfers longer than 3 bytes; Windows read_and_transmit / writer closure (threads)",
     assumptions=COMM_ASSUME,
     explanation="stream bytes are position-tagged; the model write checks each byte handed to the child against the harness's copy of the input (once, in order) and the close of stdin against 'whole input accepted'; at return the vectors must equal exactly the bytes taken out of each pipe during the call, results are present iff piped, success without limits implies end-of-file everywhere",
 )
@@ -346,13 +362,41 @@ TQ = comm_h("h_comm_time_q", "stdout only, arbitrary state, time limit t in [0, 
 TO = comm_h("h_comm_time_o", "stdout only, arbitrary state, time limit t in [0, 3 s)", 0, 3, timeout=3000, covers=["COVER/read-timed-out"])
 TBIG = comm_h("h_comm_time_big", "stdout only, t in [2147484 s, 6000000 s] (beyond the 2^31-1 ms poll limit)", 0, 3, timeout=3600)
 TRES = comm_h("h_comm_time_resume", "stdout only, timed read then an unlimited read (resumption)", 0, 4, timeout=3600, covers=["COVER/resumed-after-error"])
+TRES_IN = comm_h("h_comm_time_resume_in", "stdin+stdout, input of 2 bytes, timed read then an unlimited read (resumption of the input)", 2, 4, timeout=3600)
 LATE = comm_h("h_comm_late_kf", "stdout only, streams stay ready past the deadline", 0, 4, kind="kf", timeout=3000)
+PBIG = H("posix", "h_poll_big", unwind=3, unwindset=[(r"posix::poll", 5), (r"mk::comm::", 5)], timeout=2400, mem_gb=20, covers=["COVER/long-wait-expired"],
+         bounds={"time_limit": "2147483 s .. 4400000 s (24.8 .. 50.9 days: from 2^31 ms to beyond 2^32 ms), whole milliseconds", "streams": "none ready, ever"})
 REG["C04"] = Spec(
-    quick=[ST_IOE, TQ],
-    thorough=[TR_IOE, ST_IOE, TO, TBIG, TRES, LATE],
+    quick=[ST_IOE, TQ, PBIG],
+    thorough=[TR_IOE, ST_IOE, TO, TBIG, TRES, TRES_IN, PBIG, LATE],
     encodes=COMM_ENC + ["Communicator::limit_time", "posix::poll overflow loop"],
     bounds={"quick": "no time limit: never TimedOut (3-stream step harness); with limit t < 3 s: timeout only after t (to 1 ms), poll never asked to wait past the deadline; virtual clock with arbitrary sub-second start", "thorough": "plus t beyond 24.8 days (poll overflow loop unwound 3x), resumption after a timeout, the lateness obligation (known finding)"},
     outside="real scheduler latency; Windows recv_timeout path",
     assumptions=COMM_ASSUME + ["virtual clock: poll() that times out advances the clock by exactly its timeout; a poll that returns early advances it by any amount up to the timeout"],
     explanation="time is a symbolic variable: the model poll advances a virtual clock; TimedOut implies a limit was set and now + 1 ms > deadline; without a limit poll is always called with -1 and TimedOut is impossible; the timeout error carries exactly the bytes read during the call (content check) and a following read resumes at the pipe offsets",
+)
+
+
+EXEC_UW = [(r"vh_exec::", 8), (r"retain", 8), (r"memcmp", 8), (r"drop_glue", 8)]
+
+
+def exec_h(name, **kw):
+    return H("exec", name, unwind=4, unwindset=EXEC_UW, timeout=600, **kw)
+
+
+REG["C16"] = Spec(
+    quick=[exec_h("h_build_args", bounds={"calls": "arg, args([..2]), arg with symbolic 1-byte values"}),
+           exec_h("h_shell", bounds={"string": "every 2-byte string without NUL"}),
+           exec_h("h_clone", bounds={"edits_after_clone": "arg, env, env_remove on the original"}),
+           exec_h("h_set_once_ok", bounds={"first_setting": "None, Pipe, Merge; Pipe twice"}),
+           exec_h("h_set_twice_panics", expect_panic=r"is already set", bounds={"second_setting": "every (first, second) of {Pipe, Merge} x {None, Pipe, Merge} except Pipe-Pipe, for stdout and stderr"}),
+           exec_h("h_stdin_data_refused", expect_panic=r"called with input data specified", bounds={"terminators": "the check_no_stdin_data guard as called by popen and join"})]
+          + [exec_h(n, bounds={"sequence": n, "values": "symbolic non-NUL byte per edit", "inherited": "A=0 (model of the parent's environment)"})
+             for n in ("h_env_rm_set", "h_env_set_set_rm", "h_env_clear_ext", "h_env_dup", "h_env_rm_other", "h_env_set_clear_set")],
+    encodes=["Exec::{cmd,shell,arg,args,detached,ensure_env,env_clear,env,env_extend,env_remove,stdin,stdout,stderr,check_no_stdin_data}", "Clone for Exec", "PopenConfig::try_clone", "Redirection::try_clone"],
+    bounds="builder calls on an Exec that is inspected, not run: fixed call sequences of length 3-4 (kinds and names concrete, values symbolic); six environment-edit interactions (remove-then-set, set-set-remove, clear-then-extend, duplicate names across calls, remove-inherited, set-clear-set)",
+    outside="the step from the accumulated description to the running command (Exec::popen and every terminator: the SAT back end runs out of 26 GB, DESIGN 0.4) -- that argv and the effective environment reach the child is C06's claim for Popen::create; symbolic call sequences (symbolic Vec lengths exhaust the SAT back end); stdin set-once; PopenConfig::current_env is stubbed by a one-variable model environment",
+    assumptions=["effective value of a variable = last entry of that name in config.env (what format_env passes on; decided natively by the replayer, not by the solver)",
+                 "CBMC run with unwinding assertions on; Kani reports the builder's panic! as a failed check of the real code: the refusal harnesses must end in exactly that panic and their tagged assertion behind the call must be unreachable"],
+    explanation="in-module harnesses read Exec's private fields after real builder calls and compare with a reference model (argument vector; two option cells for the variables A and B); refusals: the harness runs only refused combinations and must end in the builder's panic",
 )
